@@ -726,8 +726,14 @@ def r17_conform(ctx: Ctx, rules: tuple[str, str, str] = ("R17.1", "R17.2", "R17.
             else:
                 run.fail(r3, inst, "reapply_skip returns self although a slot or the skip target may have changed", fi=rsk, node=p.node, details=describe(p))
         elif isinstance(v, ast.Call) and call_attr(v) == "apply_skip":
+            from ..flow import expanded_value
+
+            ev = expanded_value(p)
+            v0 = v
+            v = ev if isinstance(ev, ast.Call) else v
             bad = None
-            if not v.args or src(v.args[0]) != "skip_to":
+            a0 = v0.args[0] if v0.args else kw(v0, "skip_to")
+            if a0 is None or src(a0) != "skip_to":
                 bad = "skip_to is not forwarded"
             for slot in order:
                 a = kw(v, slot)
@@ -966,6 +972,10 @@ def r06_1_flags(ctx: Ctx, rule: str = "R06.1") -> None:
         if p.outcome == "return" and isinstance(v, ast.Call) and (dotted(v.func) or "").split(".")[-1] == "IgnoreOne":
             facts = path_facts(p)
             arg = v.args[0] if v.args else kw(v, "ignore_lhs")
+            if isinstance(arg, ast.Name):
+                bound = env_at(p).get(arg.id)
+                if isinstance(bound, ast.Constant):
+                    arg = bound
             lhs_id = has_fact(facts, "TRUTH", (f"{jp[0]}.is_join_identity",), True)
             rhs_id = has_fact(facts, "TRUTH", (f"{jp[1]}.is_join_identity",), True)
             want = True if lhs_id else False if rhs_id else None
